@@ -118,7 +118,9 @@ func (f iteratorFunc) Current() NodeNavigator {
 // Evaluate returns the result of the expression.
 // The result type of the expression is one of the follow: bool,float64,string,NodeIterator).
 func (expr *Expr) Evaluate(root NodeNavigator) interface{} {
-	val := expr.q.Evaluate(iteratorFunc(func() NodeNavigator { return root }))
+	// The query tree keeps iteration state: evaluate a private copy, as Select does,
+	// so that a compiled expression can be evaluated repeatedly and concurrently.
+	val := expr.q.Clone().Evaluate(iteratorFunc(func() NodeNavigator { return root }))
 	switch val.(type) {
 	case query:
 		return &NodeIterator{query: expr.q.Clone(), node: root}
